@@ -182,8 +182,8 @@ abbrev VtSt := Option Bool
 /-- one call on a `Vt100_Output`: what is appended to the buffer (tagged) and the new state -/
 def vtEv (E : Emit) (sgr : Nat → Text) (v : VtSt) : Ev → VtSt × Seg
   | .cell t => (v, (.content, safeWrite t))
-  | .cr => (v, (.gen, safeWrite ['\r']))
-  | .nl k => (v, (.gen, safeWrite (repeatCrLf k)))
+  | .cr => (v, (.genw, safeWrite ['\r']))
+  | .nl k => (v, (.genw, safeWrite (repeatCrLf k)))
   | .raw t => (v, (.zwe, t))
   | .hideCursor => if v = some false then (v, (.gen, [])) else (some false, (.gen, E.hide))
   | .showCursor => if v = some true then (v, (.gen, [])) else (some true, (.gen, E.show_))
